@@ -36,6 +36,7 @@ KINDS = {
     "fmin": [("skip", "flag")],          # minimal-space expansion from the root, no limit
     "faseeds": [],
     "skipall": [],                      # skip_to_minimal on every stub
+    "fbseeds": [("node", "node")],      # seeds with symbolic_fallback=True
     "everyseeds": [],                   # node_attractor_seeds(compute=True) on every node
     "allseeds": [],                     # expanded_attractor_seeds()
     "summary": [],
@@ -157,7 +158,7 @@ def build_op(k, kind, H, sd, names):
     for (p, ty) in KINDS[kind]:
         nm = f"h{k}_{p}"
         if ty == "node":
-            needs = kind in ("succ", "skip", "cands", "seeds", "sets", "qcands", "qseeds")
+            needs = kind in ("succ", "skip", "cands", "seeds", "sets", "qcands", "qseeds", "fbseeds")
             v = H.node(nm, len(sd), default_none=not needs)
             if v == "skip":
                 return None
@@ -193,3 +194,31 @@ def run_history(rules, skeleton, H, names, after_op=None, attractors=False, conf
 
 def hist_of_model(extra_vars, m):
     return {str(k): (m.eval(k, model_completion=True).as_long() if z3.is_int(k) else bool(z3.is_true(m.eval(k, model_completion=True)))) for k in extra_vars}
+
+
+CFG_FIELDS = {"cfg_thr": "retained_set_optimization_threshold", "cfg_lim": "attractor_candidates_limit",
+              "cfg_sim": "minimum_simulation_budget", "cfg_nfvs": "nfvs_size_threshold", "cfg_motifs": "max_motifs_per_node"}
+
+
+def declare_config(cfgmax=5, fields=CFG_FIELDS):
+    vs, cs = [], []
+    for k in fields:
+        v = z3.Int(k)
+        vs.append(v)
+        cs += [v >= -1, v <= cfgmax]
+    return vs, cs
+
+
+def read_config(H, symbolic, fields=CFG_FIELDS):
+    """configuration dict with the listed fields symbolic (-1 = default value)"""
+    from biobalm import SuccessionDiagram
+    cfg = SuccessionDiagram.default_config()
+    for k, field in fields.items():
+        if symbolic:
+            if not CTX.obs(z3.Int(k) == -1):
+                cfg[field] = SymInt(z3.Int(k))
+        else:
+            v = int(H.h.get(k, -1))
+            if v != -1:
+                cfg[field] = v
+    return cfg
